@@ -547,7 +547,7 @@ func (P *Program) termDesc(v ssa.Value, deep bool) string {
 				st := deref(a.X.Type()).Underlying().(*types.Struct)
 				return "field(" + P.descBase(a.X, deep) + "." + typeStr(deref(a.X.Type())) + "." + st.Field(a.Field).Name() + ")"
 			case *ssa.IndexAddr:
-				return "elem" + idxTag(a.Index) + "(" + P.desc(a.X, deep) + ")"
+				return "elem" + idxTagB(a.Index, a.X) + "(" + P.desc(a.X, deep) + ")"
 			case *ssa.Global:
 				return "global(" + a.Pkg.Pkg.Name() + "." + a.Name() + ")"
 			}
@@ -561,9 +561,9 @@ func (P *Program) termDesc(v ssa.Value, deep bool) string {
 		st := deref(x.X.Type()).Underlying().(*types.Struct)
 		return "&field(" + P.desc(x.X, deep) + "." + typeStr(deref(x.X.Type())) + "." + st.Field(x.Field).Name() + ")"
 	case *ssa.IndexAddr:
-		return "&elem" + idxTag(x.Index) + "(" + P.desc(x.X, deep) + ")"
+		return "&elem" + idxTagB(x.Index, x.X) + "(" + P.desc(x.X, deep) + ")"
 	case *ssa.Index:
-		return "elem" + idxTag(x.Index) + "(" + P.desc(x.X, deep) + ")"
+		return "elem" + idxTagB(x.Index, x.X) + "(" + P.desc(x.X, deep) + ")"
 	case *ssa.Lookup:
 		return "lookup(" + P.desc(x.X, deep) + "; " + P.desc(x.Index, deep) + ")"
 	case *ssa.Slice:
@@ -878,4 +878,74 @@ func (P *Program) helperReturns(call *ssa.Call, idx int) []ssa.Value {
 		}
 	})
 	return out
+}
+
+// idxTagB: like idxTag, and the induction variable of a full counting loop `for i := 0; i < len(x); i++`
+// indexing that same x counts as a range element.
+func idxTagB(idx, base ssa.Value) string {
+	if isFullIndexLoopOver(idx, base) {
+		return ""
+	}
+	return idxTag(idx)
+}
+
+// fullIndexLoopBound: idx is phi[0, idx+1] and the loop is controlled by `idx < len(b)`; returns b.
+func fullIndexLoopBound(idx ssa.Value) ssa.Value {
+	phi, ok := idx.(*ssa.Phi)
+	if !ok || len(phi.Edges) != 2 {
+		return nil
+	}
+	okInit, okStep := false, false
+	for _, e := range phi.Edges {
+		if c, isC := e.(*ssa.Const); isC && c.Value != nil && c.Value.ExactString() == "0" {
+			okInit = true
+		}
+		if bo, isB := e.(*ssa.BinOp); isB && bo.Op == token.ADD && bo.X == phi {
+			if c, isC := bo.Y.(*ssa.Const); isC && c.Value != nil && c.Value.ExactString() == "1" {
+				okStep = true
+			}
+		}
+	}
+	if !okInit || !okStep {
+		return nil
+	}
+	// the controlling condition: an If in phi's block (or a successor chain of plain jumps) on phi < len(b)
+	blk := phi.Block()
+	for i := 0; i < 3 && blk != nil; i++ {
+		if ifi, isIf := lastInstr(blk).(*ssa.If); isIf {
+			if bo, isB := ifi.Cond.(*ssa.BinOp); isB && bo.Op == token.LSS && bo.X == phi {
+				return lenOf(bo.Y)
+			}
+			return nil
+		}
+		if len(blk.Succs) != 1 {
+			return nil
+		}
+		blk = blk.Succs[0]
+	}
+	return nil
+}
+
+func isFullIndexLoopOver(idx, base ssa.Value) bool {
+	b := fullIndexLoopBound(idx)
+	if b == nil {
+		return false
+	}
+	if b == base {
+		return true
+	}
+	// same memory location loaded twice (x.f read in the condition and in the body)
+	lb, ok1 := b.(*ssa.UnOp)
+	lx, ok2 := base.(*ssa.UnOp)
+	if ok1 && ok2 && lb.Op == token.MUL && lx.Op == token.MUL {
+		if lb.X == lx.X {
+			return true
+		}
+		fa1, okA := lb.X.(*ssa.FieldAddr)
+		fa2, okB := lx.X.(*ssa.FieldAddr)
+		if okA && okB && fa1.X == fa2.X && fa1.Field == fa2.Field {
+			return true
+		}
+	}
+	return false
 }
